@@ -3,8 +3,8 @@
 demonstration fails; without the patch the demonstration passes.  Runs in a scratch worktree (never in /repo)."""
 import json, os, subprocess, sys, glob, shutil
 WT = '/tmp/seedwt'
-INC = '/verif/seeded/_incoming'
-OUT = '/verif/seeded/_incoming/validation.json'
+INC = os.environ.get('SEED_INC', '/verif/seeded/_incoming')
+OUT = os.path.join(INC, 'validation.json')
 env = dict(os.environ, CARGO_NET_OFFLINE='true', CARGO_TARGET_DIR=WT + '-target')
 
 def sh(cmd, cwd=WT, timeout=1800):
